@@ -166,7 +166,7 @@ func c02SanImpl(es []*c02Err) (out []*c02Err, printed string) {
 }
 
 func c02RunSanitize(c *Cfg, root *Rng) {
-	n := c.Pick(6000, 40000)
+	n := c.Pick(5000, 40000)
 	for i := 0; i < n; i++ {
 		r := root.Sub()
 		canonical := r.Chance(2, 5)
@@ -315,7 +315,7 @@ func c02TopoImpl(rt *runtime.Runtime, labels []c02Label, edges [][2]int) (res st
 
 func c02RunToposort(c *Cfg, root *Rng) {
 	rt := runtime.New()
-	n := c.Pick(4000, 25000)
+	n := c.Pick(3000, 25000)
 	for i := 0; i < n; i++ {
 		r := root.Sub()
 		ties := r.Chance(1, 6)
